@@ -245,4 +245,22 @@ CHECKS = {
         assumptions=["events are never scheduled on the same virtual instant as a try boundary (offsets of +-1ns are used instead)", "a call started on an already closed client may fail with the conn's closed error"],
         exhaustive_note="thorough tier enumerates the whole grid",
     ),
+    "C10": dict(
+        title="A client call only ever returns a response to its own transaction",
+        stages=[dict(name="model", shards={"quick": 8, "thorough": 16}, timeout={"quick": 900, "thorough": 3600}),
+                dict(name="stress", run="TestStress", race=True, shards={"quick": 8, "thorough": 16}, timeout={"quick": 900, "thorough": 5400})],
+        race_is_violation=True,
+        rule="(model, virtual time) seeded scripts of 5..40 steps over both clients: start call i (transaction id from a pool of 1..3 so that ids collide; matcher nil / accept-type / reject-all; 1 or 2 tries), inject a "
+             "datagram of class {matching, other type, wrong id, wrong hardware address, wrong opcode, undecodable, empty, relay-typed, duplicate of an earlier one}, advance virtual time, cancel, Close; synctest.Wait() "
+             "after every step makes the execution deterministic and it is compared EXACTLY (result kind, returned datagram, return instant, transmission count) with a sequential model. 2/5 of the scripts open the "
+             "cancel gap through the verif hook (virtual sleep between 'stop listening' and 'unregister') and are judged by invariants only. (stress, real time, -race) histories of 8 callers, few ids, a feeder "
+             "pushing mixed datagram streams, blocking matchers, jitter at conn and hook points, one deliberately held transaction id. Shape = script skeleton / order hash of the observed history; non-trivial iff >= 2 calls overlap or an id collides.",
+        technique="virtual-time deterministic replay of the real clients against a sequential model (exact equality), hook-driven gap scenarios with invariant oracle, and offline history checker with unique nonces over -race stress histories",
+        level_text="Model: per call the result (own-transaction datagram that is first acceptable in arrival order / no-response / ctx error / id-in-use), its instant and the number of transmissions must equal the model's. "
+                   "History checker: a returned datagram was injected, has the call's id, passes the v4 opcode/hardware-address filters, is accepted by the call's matcher (re-evaluated), its routing interval overlaps the "
+                   "call, is returned by one call only, is the first acceptable one after the call's transmission (single-try calls); a call living entirely inside another call's pending window with the same id is refused; "
+                   "never (nil, nil), never a nil message to a matcher, no error outside the allowed set; zero race reports.",
+        level_note="States with a goroutine parked on the client's mutex behind a receive loop blocked on a full channel are only reached in the real-time stage (a mutex wait is not durably blocking under synctest).",
+        assumptions=["script events never coincide with a try deadline (advances are multiples of 10 ms + 1 ns)", "all calls of one script share the client's try count"],
+    ),
 }
